@@ -467,3 +467,68 @@ Fixpoint run (st : state) (ops : list op) : option state :=
   | [] => Some st
   | o :: rest => match step st o with Some (st', _) => run st' rest | None => None end
   end.
+
+(* ---------------------------------------------------------------- histories with the client's bookkeeping (ghost) *)
+(* records of a composite, and the ids of the leaves they point at *)
+Definition crecs (d : data) : list rrec := match d with DLeaf _ => [] | DComp _ _ _ rs => rs end.
+Definition rids (d : data) : list Z := List.map (fun r => l_id (r_obj r)) (crecs d).
+
+(* g_held k    : number of references the client holds on object k (results +1, retain +1, release -1)
+   g_created   : the buffers that were given a destructor: dispatch_data_create calls and map's flattened copies *)
+Record gstate := mkG { g_st : state; g_held : Z -> nat; g_created : list Z }.
+Definition g0 : gstate := mkG st0 (fun _ => 0%nat) [].
+
+Definition hinc (held : Z -> nat) (k : Z) : Z -> nat := fun j => if j =? k then S (held j) else held j.
+Definition hdec (held : Z -> nat) (k : Z) : Z -> nat := fun j => if j =? k then pred (held j) else held j.
+Definition hinc0 (held : Z -> nat) (k : Z) : Z -> nat := if k =? EMPTY_ID then held else hinc held k.
+Definition hdec0 (held : Z -> nat) (k : Z) : Z -> nat := if k =? EMPTY_ID then held else hdec held k.
+
+Definition new_leaf (st : state) (d : data) : bool :=
+  match d with
+  | DLeaf l => negb (l_id l =? EMPTY_ID) && match heap st (l_id l) with None => true | Some _ => false end
+  | DComp _ _ _ _ => false
+  end.
+
+Definition gstep (g : gstate) (o : op) : option gstate :=
+  match step (g_st g) o with
+  | None => None
+  | Some (st', d) =>
+      Some (match o with
+            | OCreate id _ => mkG st' (hinc0 (g_held g) (obj_id d)) (g_created g ++ [id])
+            | OConcat _ _ _ | OSubrange _ _ _ _ | OMap _ _ | OCopyRegion _ _ _ =>
+                mkG st' (hinc0 (g_held g) (obj_id d))
+                    (if new_leaf (g_st g) d then g_created g ++ [obj_id d] else g_created g)
+            | OFlatten _ => mkG st' (g_held g) (g_created g)
+            | ORetain a => mkG st' (hinc0 (g_held g) a) (g_created g)
+            | ORelease a => mkG st' (hdec0 (g_held g) a) (g_created g)
+            end)
+  end.
+
+(* what a well-behaved client does: it passes only objects it holds a reference to (or the empty singleton),
+   releases only references it holds, arguments are size_t values, and a new object gets an identity that was
+   never used before (in C: a new allocation) *)
+Definition holds (g : gstate) (a : Z) : Prop := a = EMPTY_ID \/ (0 < g_held g a)%nat.
+Definition fresh_id (g : gstate) (id : Z) : Prop :=
+  id <> EMPTY_ID /\ heap (g_st g) id = None /\ ~ In id (dlog (g_st g)) /\ ~ In id (flog (g_st g)).
+Definition legal (g : gstate) (o : op) : Prop :=
+  match o with
+  | OCreate id _ => fresh_id g id
+  | OConcat f a b => fresh_id g f /\ holds g a /\ holds g b
+  | OSubrange f a off len => fresh_id g f /\ holds g a /\ 0 <= off < M64 /\ 0 <= len < M64
+  | OMap f a => fresh_id g f /\ holds g a
+  | OCopyRegion f a loc => fresh_id g f /\ holds g a /\ 0 <= loc < M64
+  | OFlatten a => holds g a
+  | ORetain a => holds g a
+  | ORelease a => holds g a
+  end.
+
+Fixpoint grun (g : gstate) (ops : list op) : option gstate :=
+  match ops with
+  | [] => Some g
+  | o :: rest => match gstep g o with Some g' => grun g' rest | None => None end
+  end.
+Fixpoint glegal (g : gstate) (ops : list op) : Prop :=
+  match ops with
+  | [] => True
+  | o :: rest => legal g o /\ match gstep g o with Some g' => glegal g' rest | None => True end
+  end.
